@@ -84,9 +84,46 @@ def labels_of(r):
     return r.get('labels', {})
 
 
+def thread_cases(ctx, build):
+    """two threads on one profiler: the main thread's outermost scope ends (once or several times) while the other thread is in the middle
+    of a profiled line.  The real run and the model (`Model.Prof` has one pending table and one count per thread) on the same history,
+    plus the plain oracle: the line in flight keeps its one execution and lasts exactly the ticks that passed."""
+    from common import run_worker, lean_driver
+    rng = ctx.rng.fork('threads')
+    cases = [{'ticks_main': rng.choice([0, 7, 1000, 2 ** 33]), 'ticks_b': rng.choice([1, 500, 2 ** 32 + 5]), 'how': how, 'quick_calls': k}
+             for how in ('with', 'decorator', 'bycount') for k in (1, 3)]
+    res = run_worker(build, 'c02_thread_worker.py', {'cases': cases}, 600)['results']
+    for c, r in zip(cases, res):
+        if 'error' in r:
+            ctx.broken.append(('harness', r['error'][-1500:]))
+            continue
+        ls, lq = r['lines']['slow'], r['lines']['quick']
+        body_s, body_q = [l for l in ls if l > ls[0]], [l for l in lq if l > lq[0]]
+        total = c['ticks_main'] + c['ticks_b']
+        want = {'slow': [[body_s[0], 1, 0], [body_s[1], 1, total], [body_s[2], 1, 0]], 'quick': [[l, c['quick_calls'], 0] for l in body_q]}
+        if r['stats'] != want or r['alive']:
+            ctx.fail('a line in flight in one thread loses its execution / its time when another thread\'s profiling scope ends',
+                     {'finding_class': None, 'threads_case': c, 'program': 'harness/c02_thread_worker.py SRC', 'reported': r['stats'], 'expected_exactly': want})
+        if getattr(ctx, 'driver_ok', True) and not r['same_bytecode']:
+            ev = lambda t, fr, base, line, kind: 'ev %d %d %d 0 %d %s' % (t, fr, base, line, kind)
+            ops = ['reset', 'delta 0', 'decl 0 0 0 %s' % ','.join(map(str, ls)), 'decl 1 1 1 %s' % ','.join(map(str, lq)), 'add 0', 'add 1',
+                   'enbc 1', ev(1, 1, 0, body_s[0], 'L'), ev(1, 1, 0, body_s[1], 'L')]
+            for k in range(c['quick_calls']):
+                ops += ['enbc 0'] + [ev(0, 2 + k, 1, l, 'L') for l in body_q] + [ev(0, 2 + k, 1, body_q[-1], 'R'), 'disbc 0']
+            ops += ['tick %d' % c['ticks_main'], 'tick %d' % c['ticks_b'], ev(1, 1, 0, body_s[2], 'L'), ev(1, 1, 0, body_s[2], 'R'), 'disbc 1', 'stats', 'clock']
+            mo = lean_driver('prof', ops)
+            mst = [corelib.parse_stats(x) for x in mo if x.startswith('stats')]
+            real = {0: {l: (h, t) for l, h, t in r['stats'].get('slow', [])}, 1: {l: (h, t) for l, h, t in r['stats'].get('quick', [])}}
+            real = {k: v for k, v in real.items() if v}
+            if not mst or mst[-1] != real or any(x in ('bad-op', 'undeclared', 'bad-model') for x in mo):
+                ctx.broken.append(('K02 correspondence (two threads)', 'case %s: model %s real %s' % (c, mst[-1:] or mo[-3:], real)))
+    ctx.coverage['two_thread_histories'] = len(cases)
+
+
 def run(ctx):
     ctx.prove('LPVerif.Props.C02', 'LPVerif/Props/C02.lean')
     build = ctx.build()
+    thread_cases(ctx, build)
     n = 200 if ctx.quick else 3000
     if ctx.broken:
         n *= 4
@@ -175,6 +212,11 @@ def replay(ctx, path):
     data = json.load(open(path))
     case = data.get('witness', data).get('case') or data.get('case')
     build = ctx.build()
+    tc = data.get('witness', data).get('threads_case')
+    if tc:
+        from common import run_worker
+        print(json.dumps({'threads_case': tc, 'real': run_worker(build, 'c02_thread_worker.py', {'cases': [tc]}, 600)['results'][0]}, indent=1))
+        return 0
     r1 = corelib.run_real(build, [case], delta=1)
     r0 = corelib.run_real(build, [case], delta=0)
     corelib.run_model(r1)
